@@ -87,6 +87,8 @@ func (x info) Mode() FileMode {
 		return fs.ModeDir | 0755
 	case x.i.Pipe:
 		return fs.ModeNamedPipe | 0600
+	case x.i.Char:
+		return fs.ModeDevice | fs.ModeCharDevice | 0620
 	}
 	return 0644
 }
@@ -98,6 +100,7 @@ const (
 	ModeDir        = fs.ModeDir
 	ModeNamedPipe  = fs.ModeNamedPipe
 	ModeCharDevice = fs.ModeCharDevice
+	ModeDevice     = fs.ModeDevice
 	ModeType       = fs.ModeType
 )
 
